@@ -150,7 +150,9 @@ POOL = {
     'H': ['FF', 'ff', '1A', '0', '7FFFFFFFFF', 'FFFFFFFFFF', '12', 'ABC', '10'],
     'H_': [10, 255, 'ZZ', '', None, True, 1.5, E_REF, '-1', '8000000000'],
     't': ['', 'a', 'abc', 'Hello World', 'hello world', ' two  spaces ', 'ÄÖü', '12', 'a,b', 'x"y', "it's",
-          'tab\there', 'line\nbreak', 'ABC', 'a;b', 'one two three', 'aaa', 'Mixed CASE text', '0', '  '],
+          'tab\there', 'line\nbreak', 'ABC', 'a;b', 'one two three', 'aaa', 'Mixed CASE text', '0', '  ',
+          # texts that ARE a separator or spell an error code: a value, not syntax
+          ',', ';', '#N/A', '#DIV/0!', '#', '{1,2}', '0042', '1.50'],
     't_': [5, 2.5, True, False, None, E_NA, 0, -1, dt(2020, 2, 29), 1e15],
     'u': [0, 1, 2, 3, 5, 10],
     'u_': [1.9, True, False, '2', None, -1, E_VAL, 100, 2.0],
@@ -161,7 +163,9 @@ POOL = {
     'd': [1, 59, 60, 61, 367, 36526, 43831, 43890, 45000, 2958465, 45000.5, 43831.25, 44196.999988425923,
           '2020-02-29', '2021-12-31 23:59:59', '1999-01-01T12:00:00', dt(2020, 2, 29), dt(2000, 1, 1, 6, 30),
           dt(1900, 3, 1), dt(1999, 12, 31, 23, 59, 59), dt(2024, 2, 29, 12, 0, 0), dt(1900, 1, 1), dt(2021, 1, 31)],
-    'd_': [True, None, '45000', -1, E_NA, 0, 0.5, 'abc', '', 2958466, False],
+    'd_': [True, None, '45000', -1, E_NA, 0, 0.5, 'abc', '', 2958466, False,
+           # arrays of dates and of serials, one-element arrays
+           [dt(2020, 2, 29), dt(2021, 1, 31)], [45000, 45001.5], [dt(2020, 2, 29)], [61], [3], [dt(2000, 1, 1, 6, 30), 43831, 43890.25]],
     'Y': [1900, 1999, 2000, 2020, 2024, 9999, 1901, 2100],
     'Y_': [0, 99, 1899, 10000, -1, 2020.9, '2020', True, None, E_NUM],
     'mo': [1, 2, 12, 6, 3, 11],
@@ -200,7 +204,8 @@ _NUMLISTS = [[1, 2, 3], [5], [2, 2, 3, 7, -1], [0.5, 1.5, 2.5, 10], [[1, 2], [3,
              [10, -10], [0, 0, 1], [1.5, 2, 2, 8], [3, 1, 4, 1, 5, 9, 2, 6], [[7, 8], [9, 10]], [0], [-1, -2, -3], [2, 4, 4, 4, 5, 5, 7, 9]]
 _MIXLISTS = [['a', 1, 2], [True, 2], [1, None, 3], [1, E_NA], ['a', 'b', 'c'], ['a', 'ab', 'abc', 'b'], [1, '2', 3.0], [[1, 'a'], [None, 4]],
              ['x', 'y', 'x'], [0, False, ''], [1, E_DIV, 2], ['1', '2'], [None], [dt(2020, 2, 29), 5], ['apple', 'banana', 'cherry'],
-             [True, False, True], [[1], [2]], [[1, 2]], [2.0, 2, '2'], [1, [2, 3]], []]
+             [True, False, True], [[1], [2]], [[1, 2]], [2.0, 2, '2'], [1, [2, 3]], [],
+             [['a', 'b'], ['c', 'd', 'e']], [[1, 2, 3], [4, 5]], [['Nord', 'Sued'], ['Ost', 'West', 'Mitte']]]
 _SORTED = [[1, 2, 3], [1, 3, 5, 7], [10, 20, 30], ['a', 'b', 'c'], [1.5, 2.5, 3.5], [0, 0, 1], [5], [1, 2, 2, 3], [False, True],
            ['apple', 'banana', 'cherry'], [-3, -1, 0, 4]]
 _DESC = [[3, 2, 1], [30, 20, 10], ['c', 'b', 'a'], [5, 5, 1]]
@@ -211,11 +216,12 @@ POOL['M'] = _MIXLISTS + _NUMLISTS
 POOL['M_'] = [1, 'a', None, True, E_NA, 0]
 POOL['S'] = _SORTED + _DESC + [[[1, 2], [3, 4]], [[1, 2, 3]], [[1], [2], [3]]]
 POOL['S_'] = _MIXLISTS + [1, 'a', None]
-POOL['a'] = POOL['n'][:14] + POOL['t'][:10] + [True, False, None, E_NA, E_DIV, dt(2020, 2, 29), BIG, 0.0, '']
+POOL['a'] = POOL['n'][:14] + POOL['t'][:10] + [True, False, None, E_NA, E_DIV, dt(2020, 2, 29), BIG, 0.0, '', ',', ';', '#N/A', '#REF!']
 POOL['a_'] = _NUMLISTS[:3] + _MIXLISTS[:3] + [E_VAL, E_NUM, -0.0, '1', ' ']
 POOL['E'] = POOL['e'] + POOL['e'] + [1, 0, 'a', None, True, 2.5, '', dt(2020, 2, 29)]
 POOL['E_'] = [[1, E_NA], [E_DIV], [1, 2], 'x"y']
-POOL['o'] = [0, 1, -1, 2, 3, 0.5, -2.5, 10, 7, 1.25, 100, '3', '2.5', 'abc', '', True, False, None, '1', 'a', BIG, 0.0, 1e15, 'B', 'b']
+POOL['o'] = [0, 1, -1, 2, 3, 0.5, -2.5, 10, 7, 1.25, 100, '3', '2.5', 'abc', '', True, False, None, '1', 'a', BIG, 0.0, 1e15, 'B', 'b',
+             2.5, 3.5, 1.5, 2.75]
 POOL['o_'] = [E_NA, E_DIV, E_VAL, dt(2020, 2, 29), dt(2000, 1, 1, 6, 30), [1, 2, 3], [1], [[1, 2], [3, 4]], [1, 'a'], ' 4 ', -0.0,
               'TRUE', [E_NA, 1], [None, 2], 'ä', 'A', 45000.5, dt(1900, 3, 1)]
 
@@ -289,12 +295,12 @@ PREC = {'{0}+{1}*{2}': ['v', 'v', 'v'], '{0}*{1}+{2}': ['v', 'v', 'v'], '{0}-{1}
         '-{0}*{1}': ['v', 'v'], '{0}+{1}<{2}': ['v', 'v', 'v'], '{0}={1}+{2}': ['v', 'v', 'v'], '({0}+{1})*{2}': ['v', 'v', 'v'],
         '{0}-({1}-{2})': ['v', 'v', 'v'], '{0}/({1}*{2})': ['v', 'z', 'z'],
         '{0}<{1}={2}': ['v', 'v', 'L'], '{0}*{1}-{2}/{3}': ['v', 'v', 'v', 'z'], '-({0}-{1})': ['v', 'v'], '{0}--{1}': ['v', 'v']}
-POOL['v'] = [0, 1, -1, 2, 3, 7, 10, -4, 0.5, -2.5, 1.25, 100, 3.0, 0.1, 0.2, 0.3, 1e15, 12, 0.7, 6]
-POOL['v_'] = [True, None, '3', '2.5', BIG]
+POOL['v'] = [0, 1, -1, 2, 3, 7, 10, -4, 0.5, -2.5, 1.25, 100, 3.0, 0.1, 0.2, 0.3, 1e15, 12, 0.7, 6, 2.5, 3.5, 1.5, 2.75, -0.5]
+POOL['v_'] = [True, None, '3', '2.5']
 
 FAMILY = {
     'C04': {'ops': PREC, 'fns': []},
-    'C05': {'ops': {}, 'fns': ['SUM', 'CONCATENATE', 'COUNTA', 'COUNTBLANK', 'CHOOSE', 'AND', 'MAX', 'TEXTJOIN', 'IF', 'LEFT', 'ROUND']},
+    'C05': {'ops': {'{0}': ['a'], '({0})': ['a'], '{0}&{1}': ['t', 't']}, 'fns': ['SUM', 'CONCATENATE', 'COUNTA', 'COUNTBLANK', 'CHOOSE', 'AND', 'MAX', 'TEXTJOIN', 'IF', 'LEFT', 'ROUND']},
     'C06': {'ops': ARITH, 'fns': []},
     'C07': {'ops': CMP, 'fns': []},
     'C08': {'ops': ERROPS, 'fns': ['IFERROR', 'IFNA', 'ISERROR', 'ISERR', 'ISNA', 'ERROR.TYPE', 'NA']},
@@ -304,7 +310,7 @@ FAMILY = {
     'C13': {'ops': DATEOPS, 'fns': ['DATEVALUE', 'N', 'DAYS']},
     'C14': {'ops': {}, 'fns': ['DATE', 'TIME', 'YEAR', 'MONTH', 'DAY', 'HOUR', 'MINUTE', 'SECOND', 'WEEKDAY', 'EDATE', 'DATEDIF', 'DAYS',
                                'DATEVALUE', 'TIMEVALUE']},
-    'C15': {'ops': {'{0}&{1}': ['t', 't']},
+    'C15': {'ops': {'{0}&{1}': ['t', 't'], '{0}': ['t']},
             'fns': ['CHAR', 'CODE', 'CLEAN', 'CONCAT', 'CONCATENATE', 'LEFT', 'LEFTB', 'RIGHT', 'RIGHTB', 'MID', 'MIDB', 'LEN', 'LENB',
                     'LOWER', 'UPPER', 'PROPER', 'TRIM', 'SUBSTITUTE', 'TEXTJOIN', 'T']},
     'C16': {'ops': {}, 'fns': _UNARY_X + ['ACOS', 'ASIN', 'ATANH', 'ACOSH', 'ACOTH', 'ATAN2', 'LN', 'LOG10', 'LOG', 'SQRT', 'POWER', 'PI',
@@ -368,7 +374,9 @@ RANGES = [('K1', 'M2'), ('N1', 'P2'), ('Q1', 'S2'), ('T1', 'V2'), ('W1', 'Y2'), 
 HOSTFN = ['HFA', 'hfb', 'Hfc', 'HFD', 'hfe', 'Hff', 'HFG', 'hfh']       # a host registers names in any letter case
 NESTFN = ['NSA', 'nsb', 'Nsc', 'NSD', 'nse', 'Nsf', 'NSG', 'nsh']
 TWIN_NAMES = ['YA', 'YB', 'YC', 'YD', 'YE', 'YF', 'YG', 'YH']
-ARG_ROUTES = ['var', 'lit', 'cell', 'cellabs', 'celllow', 'range', 'hostfn', 'nested', 'if', 'choose', 'paren', 'slot']
+ARG_ROUTES = ['var', 'lit', 'cell', 'cellabs', 'celllow', 'range', 'rangerev', 'rangemix', 'hostfn', 'nested', 'if', 'choose', 'paren', 'slot',
+              'varlis', 'lisonly']
+LIS_NAMES = ['ZA', 'ZB', 'ZC', 'ZD', 'ZE', 'ZF', 'ZG', 'ZH']
 # arrays handed over as tuples (a host that reads rows from a database cursor): only where the statement's functions flatten
 # their arguments, i.e. where a tuple and a list are the same collection of items
 TUPLE_ROUTES = ['rangetup', 'hosttup']
@@ -381,6 +389,12 @@ def arg_text(i, v, route):
     """text of operand i under `route`, or None when the route cannot carry the value"""
     if route == 'var':
         return VAR_NAMES[i]
+    if route in ('varlis', 'lisonly'):
+        # a name the host's callVariable listener answers: registered with a stale value (varlis) or not registered at all
+        # (lisonly); a listener cannot hand over a blank (None means "no answer")
+        return LIS_NAMES[i] if v is not None else None
+    if isinstance(route, str) and route.startswith('same:'):
+        return VAR_NAMES[int(route[5:])]
     if route == 'lit':
         return lit(v)
     if route == 'slot':
@@ -393,10 +407,17 @@ def arg_text(i, v, route):
         if route == 'celllow':
             c = c.lower()
         return c
-    if route in ('range', 'rangetup'):
+    if route in ('range', 'rangetup', 'rangerev', 'rangemix'):
         if not is_list(v):
             return None
-        return '%s:%s' % RANGES[i]
+        a, b = RANGES[i]
+        if route == 'rangerev':
+            return '%s:%s' % (b, a)                       # bottom-right : top-left
+        if route == 'rangemix':
+            ca, ra = re.match(r'([A-Z]+)([0-9]+)', a).groups()
+            cb, rb = re.match(r'([A-Z]+)([0-9]+)', b).groups()
+            return '%s%s:%s%s' % (ca, rb, cb, ra)         # bottom-left : top-right - exactly one axis written backwards
+        return '%s:%s' % (a, b)
     if route in ('hostfn', 'hosttup'):
         if route == 'hosttup' and not is_list(v):
             return None
@@ -424,8 +445,8 @@ def formula_of(c):
     sep = lay.get('sep', ',')
     pad = lay.get('pad', '')
     if 'fn' in c:
-        if sep != ',' and any(';' in t or '\\' in t for t in texts):
-            # a two-row array literal or a text with the separator inside: keep the comma
+        if sep != ',' and any(t.startswith('{') and ';' in t for t in texts):
+            # a two-row array literal: keep the comma between the arguments
             sep = ','
         if texts.count('') and (len(texts) < 2 or texts.count('') > 1):
             return None
@@ -466,6 +487,12 @@ def twin_args(args):
     return t if canon([dec(x) for x in t]) != canon([dec(x) for x in args]) else None
 
 
+def _bind_base(p, c):
+    """the reference evaluation: every operand its own object in its own variable"""
+    for i, v in enumerate(c['args']):
+        p.set_variable(VAR_NAMES[i], dec(v))
+
+
 def base_formula(c):
     n = len(c['args'])
     if 'fn' in c:
@@ -479,6 +506,7 @@ _parsers = {}
 _cellval = {}
 _rangeval = {}
 _hostval = {}
+_lisval = {}
 
 
 def _strip(label):
@@ -502,6 +530,7 @@ def parser(debug=False):
         p = hotxlfp.Parser(debug=True) if debug else hotxlfp.Parser()
         p.on('callCellValue', lambda cell, setter: setter(_cellval.get(_strip(cell.label))))
         p.on('callRangeValue', lambda a, b, setter: setter(_rangeval.get((_strip(a.label), _strip(b.label)))))
+        p.on('callVariable', lambda name, setter: setter(_lisval.get(name)))
         for i, name in enumerate(HOSTFN):
             p.set_function(name, (lambda k: (lambda: _hostval.get(k)))(i))
         for i, name in enumerate(NESTFN):
@@ -523,16 +552,31 @@ def _bind(p, c, decoy=False):
     _cellval.clear()
     _rangeval.clear()
     _hostval.clear()
+    _lisval.clear()
+    for nm in LIS_NAMES:
+        p.variables.pop(nm, None)
     tw = twin_args(c['args']) if c.get('lay', {}).get('twin') else None
     for i, (v, r) in enumerate(zip(c['args'], c['routes'])):
         if decoy:
             v = _decoy_value(v)
-        p.set_variable(VAR_NAMES[i], dec(v))
         if tw is not None:
             p.set_variable(TWIN_NAMES[i], dec(tw[i]))
+        if isinstance(r, str) and r.startswith('same:'):
+            # the very OBJECT of an earlier operand, named twice
+            continue
+        p.set_variable(VAR_NAMES[i], dec(v))
+        if r == 'varlis':
+            p.set_variable(LIS_NAMES[i], _decoy_value(c['args'][i]) if not decoy else dec(c['args'][i]))
+            _lisval[LIS_NAMES[i]] = dec(v)
+        elif r == 'lisonly':
+            _lisval[LIS_NAMES[i]] = dec(v)
+        if r in ('cell', 'cellabs', 'celllow'):
+            # a host variable spelled like the reference does not shadow the cell (the lexer reads letters+digits as a cell)
+            lab = CELLS[i].lower() if r == 'celllow' else CELLS[i]
+            p.set_variable(lab, 'shadow')
         if r in ('cell', 'cellabs', 'celllow'):
             _cellval[CELLS[i]] = dec(v)
-        elif r == 'range':
+        elif r in ('range', 'rangerev', 'rangemix'):
             _rangeval[RANGES[i]] = dec(v)
         elif r == 'rangetup':
             _rangeval[RANGES[i]] = _tup(dec(v))
@@ -595,8 +639,11 @@ def run(c):
                 p0.set_variable(VAR_NAMES[i], dec(v))
             _parse(p0, base_formula(c))
     _bind(p0, c)
+    _bind_base(p0, c)
     base = canon_rec(_parse(p0, base_formula(c)))
     p = parser(bool(lay.get('debug')))
+    if lay.get('oncefirst'):
+        p = fresh_parser_with_once(bool(lay.get('debug')))
     if lay.get('pre'):
         # an earlier evaluation on the same parser that read the same references with OTHER values and did not complete
         _bind(p, c, decoy=True)
@@ -619,6 +666,24 @@ def run(c):
     return out
 
 
+def fresh_parser_with_once(debug):
+    """a NEW parser on which, for each of the four events, a one-shot listener that sets nothing was subscribed with `once`
+    AHEAD of the host's permanent listeners (a lazy loader that fires on the first event and leaves)"""
+    common.load_repo()
+    import hotxlfp
+    p = hotxlfp.Parser(debug=True) if debug else hotxlfp.Parser()
+    for ev in ('callCellValue', 'callRangeValue', 'callVariable', 'callFunction'):
+        p.once(ev, lambda *a: None)
+    p.on('callCellValue', lambda cell, setter: setter(_cellval.get(_strip(cell.label))))
+    p.on('callRangeValue', lambda a, b, setter: setter(_rangeval.get((_strip(a.label), _strip(b.label)))))
+    p.on('callVariable', lambda name, setter: setter(_lisval.get(name)))
+    for i, name in enumerate(HOSTFN):
+        p.set_function(name, (lambda k: (lambda: _hostval.get(k)))(i))
+    for i, name in enumerate(NESTFN):
+        p.set_function(name, _nested(p, VAR_NAMES[i]))
+    return p
+
+
 PRE_SUFFIX = {'syntax': ')', 'name': '+nosuchname', 'errlit': '+#N/A', 'open': '+('}
 _decoy = [None]
 
@@ -630,6 +695,7 @@ def decoy_parser():
         p = hotxlfp.Parser()
         p.on('callCellValue', lambda cell, setter: setter(_cellval.get(_strip(cell.label))))
         p.on('callRangeValue', lambda a, b, setter: setter(_rangeval.get((_strip(a.label), _strip(b.label)))))
+        p.on('callVariable', lambda name, setter: setter(_lisval.get(name)))
         for i, name in enumerate(HOSTFN):
             p.set_function(name, (lambda k: (lambda: _hostval.get(k)))(i))
         for i, name in enumerate(NESTFN):
@@ -643,10 +709,13 @@ def _bind_listeners_only(c):
     _cellval.clear()
     _rangeval.clear()
     _hostval.clear()
+    _lisval.clear()
     for i, (v, r) in enumerate(zip(c['args'], c['routes'])):
+        if r in ('varlis', 'lisonly'):
+            _lisval[LIS_NAMES[i]] = dec(v)
         if r in ('cell', 'cellabs', 'celllow'):
             _cellval[CELLS[i]] = dec(v)
-        elif r == 'range':
+        elif r in ('range', 'rangerev', 'rangemix'):
             _rangeval[RANGES[i]] = dec(v)
         elif r == 'rangetup':
             _rangeval[RANGES[i]] = _tup(dec(v))
@@ -683,10 +752,13 @@ def request(c):
             variables[TWIN_NAMES[i]] = dec(tw[i])
     cells, ranges, fns = {}, {}, {}
     for i, (v, r) in enumerate(zip(c['args'], c['routes'])):
+        if r in ('varlis', 'lisonly'):
+            # the model has no callVariable listeners: the name carries the value the listener hands over
+            variables[LIS_NAMES[i]] = dec(v)
         if r in ('cell', 'cellabs', 'celllow'):
             # the model's environment is keyed by the upper-cased label as written
             cells[arg_text(i, v, r).upper()] = dec(v)
-        elif r in ('range', 'rangetup'):
+        elif r in ('range', 'rangetup', 'rangerev', 'rangemix'):
             ranges[RANGES[i]] = dec(v)
         elif r in ('hostfn', 'hosttup'):
             fns[HOSTFN[i]] = '(const %s)' % fx.to_wire(dec(v))
@@ -784,10 +856,99 @@ def sem_int_arith(c, im):
     return None
 
 
+_EXACT_TPL = re.compile(r'^[-+*/()<>={}0-9 ]+$')
+
+
+def sem_exact(c, im):
+    """an operator template over plain numbers that doubles carry exactly (ints below 2^53, dyadic floats): the value is the exact
+    evaluation of the tree the template spells (C04: `equals an independent exact evaluation of the tree`; C07: numbers compare
+    by value) - evaluated here with Python fractions, whose precedence for + - * / unary minus and one comparison is the
+    spreadsheet's"""
+    tpl = c.get('tpl')
+    if not tpl or not _EXACT_TPL.match(tpl) or '&' in tpl:
+        return None
+    ncmp = len(re.findall(r'<>|<=|>=|<|>|=', tpl))
+    if ncmp > 1:
+        return None
+    from fractions import Fraction
+    vals = []
+    for a in c['args']:
+        if isinstance(a, bool) or not isinstance(a, (int, float)):
+            return None
+        if isinstance(a, float) and (a != a or a in (float('inf'), float('-inf'))):
+            return None
+        if abs(a) >= 2 ** 53:
+            return None
+        f = Fraction(a)
+        if f.denominator > 2 ** 20:
+            return None      # not a short dyadic fraction: double arithmetic on it rounds
+        vals.append(f)
+    expr = tpl
+    for op, py in (('<>', ' != '), ('<=', ' <= '), ('>=', ' >= ')):
+        expr = expr.replace(op, py)
+    expr = re.sub(r'(?<![<>!=])=(?!=)', ' == ', expr)
+    expr = expr.replace('--', '- -')
+    try:
+        want = eval(expr.format(*['V[%d]' % i for i in range(len(vals))]), {'__builtins__': {}}, {'V': vals})
+    except ZeroDivisionError:
+        return None
+    base = im['base']
+    if base[1] is not None:
+        return '%s with %s gives the error %s; the exact value of the tree is %s' % (base_formula(c), json_short(c['args']), base[1], want)
+    got = base[0]
+    if isinstance(want, bool):
+        ok = got == ['bool', want]
+    elif got[0] == 'int':
+        ok = int(got[1]) == want
+    elif got[0] == 'float':
+        # intermediate results of double arithmetic round: within 4 units in the last place of the exact value (L1)
+        g = float.fromhex(got[1])
+        ok = fx.ulp_close(g, Fraction(want), 4)
+    else:
+        ok = False
+    if not ok:
+        return ('%s with the numbers %s gives %s; the exact evaluation of the tree gives %s'
+                % (base_formula(c), json_short(c['args']), _show(base), want))
+    return None
+
+
+def sem_elementwise(c, im):
+    """array OP scalar / array OP one-element array acts element by element (C06, C13): the result equals the list of the scalar
+    results - the scalar results taken from the library itself"""
+    tpl = c.get('tpl')
+    if tpl not in ('{0}+{1}', '{0}-{1}', '{0}*{1}', '{0}/{1}'):
+        return None
+    a, b = c['args']
+
+    def flat_scalars(v):
+        return is_list(v) and len(v) >= 1 and all(not is_list(x) for x in v)
+    if flat_scalars(a) and len(a) >= 2 and (not is_list(b) or (flat_scalars(b) and len(b) == 1)):
+        pairs = [(x, b[0] if is_list(b) else b) for x in a]
+    elif flat_scalars(b) and len(b) >= 2 and (not is_list(a) or (flat_scalars(a) and len(a) == 1)):
+        pairs = [(a[0] if is_list(a) else a, y) for y in b]
+    else:
+        return None
+    p0 = parser(False)
+    want = []
+    for x, y in pairs:
+        p0.set_variable(VAR_NAMES[0], dec(x))
+        p0.set_variable(VAR_NAMES[1], dec(y))
+        r = _parse(p0, tpl.format(VAR_NAMES[0], VAR_NAMES[1]))
+        if r['error'] is not None:
+            want.append(['xlerror', r['error']])
+        else:
+            want.append(canon(r['result']))
+    base = im['base']
+    if base[1] is None and base[0][0] == 'list' and base[0][1:] != want:
+        return ('%s with %s gives %s; element by element the library itself gives %s'
+                % (base_formula(c), json_short(c['args']), _show(base), want))
+    return None
+
+
 def oracle(c, im):
     if im.get('f') is None:
         return None
-    m = sem_trap(c, im) or sem_int_arith(c, im)
+    m = sem_trap(c, im) or sem_int_arith(c, im) or sem_exact(c, im) or sem_elementwise(c, im)
     if m:
         return m
     what = c.get('fn') or c.get('tpl')
@@ -844,6 +1005,8 @@ def _layout(rng, is_fn):
         lay['decoy'] = True
     if rng.random() < 0.1:
         lay['twinfirst'] = True
+    if rng.random() < 0.04:
+        lay['oncefirst'] = True
     return lay
 
 
@@ -888,6 +1051,13 @@ def route_cases(rng, ctx, fam, scale=None):
                 i = rng.randrange(len(args))
                 c['args'] = args = args[:i] + [None] + args[i + 1:]
                 c['routes'][i] = 'slot'
+            if kind == 'fn' and any(k.endswith('+') for k in sig) and len(args) < 7 and rng.random() < 0.12:
+                # the same array OBJECT named twice in one call (a variable used twice): its items count twice
+                idx = [i for i, a in enumerate(args) if is_list(a) and c['routes'][i] == 'var']
+                if idx:
+                    j = rng.choice(idx)
+                    c['args'] = args = args + [args[j]]
+                    c['routes'] = c['routes'] + ['same:%d' % j]
             if kind == 'fn' and name in TUPLE_OK and rng.random() < 0.15:
                 idx = [i for i, a in enumerate(args) if is_list(a)]
                 if idx:
@@ -939,9 +1109,12 @@ RULE_TEXT = (' Route layer (harness/routes.py, kind route; a random stream of it
              'function and operator template of this property\'s family (routes.FAMILY) at least 14 (quick) / 220 (thorough) cases per '
              'call, and at least 700 / 12000 per check, times the scale: operand values from typed pools (80 % from the kind the position '
              'documents, 20 % neighbours: logicals, numeric text, blank, error values, date-times, arrays), each operand on a route '
-             'drawn from {variable, literal, cell listener (relative, absolute, lower-case label), range listener (arrays), result of a '
+             'drawn from {variable, literal, cell listener (relative, absolute, lower-case label), range listener (arrays; the range written '
+             'top-left:bottom-right, bottom-right:top-left or bottom-left:top-right), result of a '
              'custom function, nested evaluation on the same parser inside a custom function, IF(TRUE,x,0), CHOOSE(1,x), parentheses, '
-             'empty slot (blank)} - one operand off the variable route (40 %), all on one route (20 %), independently mixed (40 %) - and a '
+             'empty slot (blank), a name registered with a STALE value that the host\'s callVariable listener answers with the real one, a name '
+             'only that listener knows} - a variable spelled like the cell reference is registered beside every cell route (it must not '
+             'shadow the cell); one operand off the variable route (40 %), all on one route (20 %), independently mixed (40 %) - and a '
              'layout: `;` or `\\` between the arguments (22 %), white space / tab / LF / CR LF around every token (20 %), redundant '
              'parentheses (8 %), leading or trailing white space (6 % each), a parser constructed with debug=True (10 %), evaluated '
              'twice on the same parser (12 %); after an evaluation on the same parser that read the same references with OTHER values and did '
@@ -951,12 +1124,18 @@ RULE_TEXT = (' Route layer (harness/routes.py, kind route; a random stream of it
              'and evaluating the same formula in between (7 %); the plain call evaluated FIRST on such twin operands (10 %); one argument omitted as an empty slot at a random position, whatever the '
              'separator (10 % of the calls with two or more arguments); for the flattening functions (aggregates, CONCAT, CONCATENATE, TEXTJOIN) '
              'an array operand handed over as a tuple (of tuples) by the range listener or a custom function (15 % of their cases with an array); '
-             'custom functions are registered under upper-, lower- and mixed-case names. Systematically per function: an omitted argument in '
+             'custom functions are registered under upper-, lower- and mixed-case names; the same array OBJECT named twice in one call of a '
+             'variadic function (12 %); a NEW parser on which one-shot listeners that set nothing were subscribed with `once` ahead of the '
+             'host\'s permanent listeners (4 %); texts that are a separator or spell an error code (`,` `;` `#N/A`) among the text and '
+             'any-value pools, also as literals under that separator; the bare template {0} (the literal or reference is the whole formula) '
+             'for C05 and C15. Systematically per function: an omitted argument in '
              'the first, a middle and the last slot under each of the three separators; for the flattening functions six fixed arrays (numbers, '
              'texts, two rows, a blank inside) as tuples through both tuple routes. Oracle: the record equals, type for type and bit for bit, the record of the same call '
              'with all operands in variables, commas, one line, no debug; the second evaluation equals the first; the answer after the other '
              'parser\'s bindings equals the one before; for IFERROR / IFNA / ISERROR / ISERR / ISNA on scalar operands the record of the variable '
-             'route is the one their definition gives, and for + - * on two Python ints it is the exact int. Model: '
+             'route is the one their definition gives, for + - * on two Python ints it is the exact int, for an operator template over short '
+             'dyadic numbers with at most one comparison it is the exact evaluation of the tree (ints exactly, floats within 4 ulp, logicals '
+             'exactly), and array OP scalar / one-element array equals the list of the library\'s own scalar results. Model: '
              '`eval` of the ROUTED formula with the cells, ranges and custom functions in the environment, compared as elsewhere '
              '(4 ulp / 1e-9). Non-trivial: no error entry and at least one operand off the variable route or a layout.')
 TRUSTED_TEXT = ('route layer: the variable route (the call with every operand bound by set_variable, commas, one line) is the '
